@@ -214,6 +214,7 @@ func (o *OvsdbServer) Transact(client *rpc2.Client, args []json.RawMessage, repl
 	}
 	transactionID := uuid.New()
 	o.processMonitors(transactionID, updates)
+	verifPause("transact.after-notify")
 	return o.db.Commit(db, transactionID, updates)
 }
 
